@@ -36,6 +36,12 @@ GATE_SNIPS = [
     "{% include 'ginc.html' %}",
     "{% set v = gate('s') %}{{ v }}{{ tid }}", "{% set who = tid %}{{ gate('t') }}{{ who }}",
     "{% autoescape true %}{{ gate('e') }}{{ html }}{% endautoescape %}{{ html }}", "{{ html }}{{ gate('h') }}{{ [html, html]|join('-') }}{{ html|upper }}",
+    # callers with different autoescape modes around a cached module's macro whose body suspends
+    "{% autoescape true %}{% import 'glib3.html' as L3 %}{{ L3.gm3(html) }}{% endautoescape %}",
+    "{% autoescape false %}{% import 'glib3.html' as L3 %}{{ L3.gm3(html) }}{% endautoescape %}",
+    "{% import 'glib3.html' as L3 %}{{ L3.gm3(tid) }}{{ html }}",
+    # an {% autoescape %} block inside a cached module's macro (recorded finding C37-F1)
+    "{% import 'glib4.html' as L4 %}{{ L4.f4(html) }}", "{% import 'glib4.html' as L4 %}{{ L4.t4(html) }}{{ [html, '<m>'|safe]|join }}",
     "{% import 'glib2.html' as L2 %}{{ L2.who }}{{ gate('z') }}{{ L2.gm2() }}",
     "{% set c = cycler('o', 'e') %}{{ c.next() }}{{ gate('y') }}{{ c.next() }}{{ c.next() }}",
     "{% filter upper %}{{ tid }}{{ gate('f') }}{% endfilter %}",
@@ -46,6 +52,9 @@ GATE_SNIPS = [
 AUX = {
     "glib.html": "{% macro gm(p) %}({{ p }}{{ gl.a }}){% endmacro %}{% set v = ggate('modbody') %}",
     "ginc.html": "<{{ tid }}{{ gate('i') }}{{ tid }}{{ nums|sum }}>",
+    "glib3.html": "{% macro gm3(p) %}<b>{{ ggate('m3') }}{{ p }}</b>{% endmacro %}",
+    "glib4.html": "{% macro f4(x) %}{% autoescape false %}{{ ggate('ae') }}{{ [x, '<m>'|safe]|join('-') }}{% endautoescape %}{% endmacro %}"
+                  "{% macro t4(x) %}{% autoescape true %}{{ ggate('at') }}{{ [x, '<m>'|safe]|join('-') }}{% endautoescape %}{% endmacro %}",
     "glib2.html": "{% set who = tid|default('none') %}{% macro gm2() %}[{{ who }}]{% endmacro %}",
 }
 
@@ -81,9 +90,9 @@ class Sched:
         return "g"
 
 
-def make_env(jinja2, templates, sched):
+def make_env(jinja2, templates, sched, autoescape=False):
     loader = jinja2.FunctionLoader(lambda n: (templates[n], n, lambda: True) if n in templates else None)
-    env = jinja2.Environment(loader=loader, enable_async=True)
+    env = jinja2.Environment(loader=loader, enable_async=True, autoescape=autoescape)
     data, eg, tg = FC.make_inputs()
     env.globals.update(eg)
 
@@ -112,19 +121,19 @@ async def render_task(env, name, data):
         return "exc:" + type(e).__name__
 
 
-def run_alone(jinja2, loop, templates, name, tid):
+def run_alone(jinja2, loop, templates, name, tid, autoescape=False):
     sched = Sched()
     sched.auto = True
-    env = make_env(jinja2, templates, sched)
+    env = make_env(jinja2, templates, sched, autoescape)
     task = loop.create_task(render_task(env, name, task_data(sched, tid)), name=tid)
     out = loop.run_until_complete(task)
     return out, [lab for _, lab in sched.log]
 
 
-def run_order(jinja2, loop, templates, names, order):
+def run_order(jinja2, loop, templates, names, order, autoescape=False):
     """order: list of task ids; each entry releases that task's next gate.  -> (outputs, max parked, deviated)"""
     sched = Sched()
-    env = make_env(jinja2, templates, sched)
+    env = make_env(jinja2, templates, sched, autoescape)
 
     async def main():
         tasks = {}
@@ -198,6 +207,7 @@ def run(ctx):
             warnings.simplefilter("ignore")
             for si in range(n_sets):
                 ntasks = ctx.rng.choice([2, 2, 3])
+                auto = (si % 3 == 1) if si >= len(FIXED) else FIXED_AUTO[si]
                 for _attempt in range(20):
                     templates = dict(AUX)
                     names = []
@@ -206,7 +216,7 @@ def run(ctx):
                         names.append(f"t{i}.html")
                     if si < len(FIXED):
                         names = names[: len(FIXED[si])]
-                    alone = [run_alone(jinja2, loop, templates, n, f"T{i}") for i, n in enumerate(names)]
+                    alone = [run_alone(jinja2, loop, templates, n, f"T{i}", auto) for i, n in enumerate(names)]
                     # gates of an imported module body are met by whichever task(s) find the cache empty: count them
                     # per task as in the isolated run; total <= 6
                     if 2 <= sum(len(a[1]) for a in alone) <= 6:
@@ -220,13 +230,13 @@ def run(ctx):
                 seqs = [a[1] for a in alone]
                 for order_idx in merges(seqs):
                     order = [f"T{i}" for i in order_idx]
-                    case = {"templates": templates, "names": names, "order": order}
+                    case = {"templates": templates, "names": names, "order": order, "autoescape": auto}
                     try:
-                        outs, parked, deviated = run_order(jinja2, loop, templates, names, order)
+                        outs, parked, deviated = run_order(jinja2, loop, templates, names, order, auto)
                     except Exception as e:  # noqa
                         outs, parked, deviated = {f"T{i}": "harness:" + type(e).__name__ for i in range(len(names))}, 0, True
                     ctx.case(sample=dict(case, outputs=outs) if parked >= 2 and ctx.evaluations % 211 == 0 else None,
-                             key=(tuple(templates[n] for n in names), tuple(order)) if parked >= 2 else None)
+                             key=(tuple(templates[n] for n in names), tuple(order), auto) if parked >= 2 else None)
                     ctx.count(f"tasks_{len(names)}")
                     ctx.count("deviated" if deviated else "as_planned")
                     bad = [tid for i, tid in enumerate(sorted(outs)) if outs[tid] != alone[i][0]]
@@ -234,7 +244,8 @@ def run(ctx):
                         i = int(bad[0][1:])
                         ctx.reject(dict(case, task=bad[0], alone=alone[i][0][:300], concurrent=outs[bad[0]][:300]),
                                    f"task {bad[0]} rendered concurrently differs from the same template rendered alone",
-                                   "concurrent task output differs: " + culprit(templates[names[i]]))
+                                   culprit(templates[names[i]]) if "glib4.html" in templates[names[i]]
+                                   else "concurrent task output differs: " + culprit(templates[names[i]]))
                     else:
                         ctx.validated()
     finally:
@@ -243,6 +254,8 @@ def run(ctx):
 
 
 def culprit(src):
+    if "glib4.html" in src:
+        return FC.SIG_MODULE_EVALCTX
     for key in ("glib2.html", "glib.html", "ginc.html", "namespace", "cycler", "macro", "loop.", "sum(start", "block"):
         if key in src:
             return key
@@ -256,7 +269,13 @@ FIXED = [
      "{% include 'ginc.html' %}{{ lists|sum(start=acc)|length }}"],
     ["{% autoescape true %}{{ gate('e') }}{{ html }}{% endautoescape %}{{ html }}", "{{ html }}{{ gate('h') }}{{ [html, html]|join('-') }}",
      "{% set who = tid %}{% import 'glib2.html' as L2 %}{{ L2.who }}{{ gate('z') }}{{ L2.gm2() }}{{ who }}"],
+    # two tasks inside the autoescape block of a cached module's macro (finding C37-F1), environment autoescape on
+    ["{% import 'glib4.html' as L4 %}{{ L4.f4(html) }}", "{% import 'glib4.html' as L4 %}{{ L4.f4(html) }}{{ [html, '<m>'|safe]|join }}"],
+    # callers with different autoescape modes around a shared macro that suspends
+    ["{% autoescape true %}{% import 'glib3.html' as L3 %}{{ L3.gm3(html) }}{% endautoescape %}",
+     "{% autoescape false %}{% import 'glib3.html' as L3 %}{{ L3.gm3(html) }}{% endautoescape %}"],
 ]
+FIXED_AUTO = [False, False, False, True, False]
 
 
 def replay(ctx, data):
@@ -267,10 +286,11 @@ def replay(ctx, data):
         return run(ctx)
     loop = asyncio.new_event_loop()
     templates, names, order = case["templates"], case["names"], case["order"]
-    alone = [run_alone(jinja2, loop, templates, n, f"T{i}") for i, n in enumerate(names)]
-    outs, parked, deviated = run_order(jinja2, loop, templates, names, order)
+    auto = case.get("autoescape", False)
+    alone = [run_alone(jinja2, loop, templates, n, f"T{i}", auto) for i, n in enumerate(names)]
+    outs, parked, deviated = run_order(jinja2, loop, templates, names, order, auto)
     loop.close()
     for i, tid in enumerate(sorted(outs)):
         print(tid, "alone:", alone[i][0][:120], "| concurrent:", outs[tid][:120])
         if outs[tid] != alone[i][0]:
-            ctx.reject(case, f"task {tid} rendered concurrently differs from the same template rendered alone")
+            ctx.reject(case, f"task {tid} rendered concurrently differs from the same template rendered alone", data.get("signature"))
